@@ -496,6 +496,10 @@ func (fr *Frame) enterLoop(lp *Loop, edges []Edge, order []*ssa.BasicBlock) {
 	x.wildLog, x.refLog = map[string]bool{}, map[string]map[string]Term{}
 	stamp := c.n
 	savedRets := len(fr.rets)
+	savedNames := map[string]int{}
+	for k, v := range x.cur.names {
+		savedNames[k] = v
+	}
 	savedEdges := fr.edges
 	fr.edges = map[*ssa.BasicBlock][]Edge{lp.header: {{reach, se.Clone(), nil}}}
 	lp.dry = true
@@ -516,6 +520,7 @@ func (fr *Frame) enterLoop(lp *Loop, edges []Edge, order []*ssa.BasicBlock) {
 	x.writeLog, x.lwLog, x.logging = savedLog, savedLw, savedLogging
 	x.wildLog, x.refLog = savedWild, savedRef
 	c.Restore(snap)
+	x.cur.names = savedNames
 	// 3. havoc the modified set
 	sh := se.Clone()
 	var invTerms []Term
